@@ -628,13 +628,13 @@ PLANS = {
                 mc=[mc_job("nc_payload", "MC_Netcode", {"quick": ["MC_NC_q4.cfg"], "thorough": ["MC_NC_q4.cfg", "MC_NC_q1.cfg"]}, ["C04"], strict=False)],
                 level="model_checking", assumptions=NC_ASSUME),
     "C05": Plan("nc", "TraceNetcodeMon", ["C05"], [("handshake_histories", g_nc_handshake)],
-                mc=[mc_job("nc_cross", "MC_Netcode", {"quick": ["MC_NC_q1.cfg"], "thorough": ["MC_NC_q1.cfg", "MC_NC_q2.cfg", "MC_NC_q3.cfg"]}, ["C05"], strict=False)],
+                mc=[mc_job("nc_cross", "MC_Netcode", {"quick": ["MC_NC_q1.cfg"], "thorough": ["MC_NC_q1.cfg", "MC_NC_q2.cfg", "MC_NC_q3.cfg", "MC_NC_bad.cfg"]}, ["C05"], strict=False)],
                 level="model_checking", assumptions=NC_ASSUME),
     "C07": Plan("nc", "TraceNetcodeMon", ["C07"], [("shapes", g_nc_shapes), ("bits", g_nc_bits), ("handshake_histories", g_nc_handshake)],
                 mc=[mc_job("nc_cross", "MC_Netcode", {"quick": ["MC_NC_q3.cfg"], "thorough": ["MC_NC_q1.cfg", "MC_NC_q3.cfg"]}, ["C07"], strict=False)],
                 level="model_checking", assumptions=NC_ASSUME),
     "C10": Plan("nc", "TraceNetcodeMon", ["C10"], [("handshake_histories", g_nc_handshake), ("payload_histories", g_nc_payload)],
-                mc=[mc_job("nc_table", "MC_Netcode", {"quick": ["MC_NC_q2.cfg"], "thorough": ["MC_NC_q1.cfg", "MC_NC_q2.cfg", "MC_NC_q3.cfg"]}, ["C10"], strict=False)],
+                mc=[mc_job("nc_table", "MC_Netcode", {"quick": ["MC_NC_q2.cfg"], "thorough": ["MC_NC_q1.cfg", "MC_NC_q2.cfg", "MC_NC_q3.cfg", "MC_NC_limit.cfg"]}, ["C10"], strict=False)],
                 level="model_checking", assumptions=NC_ASSUME),
     "C16": Plan("msg", "TraceRenetMon", ["C16"],
                 [("wire_renet", g_wire_renet, "msg", "TraceRenetMon"), ("wire_netcode", g_wire_netcode, "nc", "TraceNetcodeMon"),
@@ -657,11 +657,11 @@ PLANS = {
                 mc=[mc_job("nc_nonce", "MC_Netcode", {"quick": ["MC_NC_q3.cfg"], "thorough": ["MC_NC_q1.cfg", "MC_NC_q2.cfg", "MC_NC_q3.cfg", "MC_NC_q4.cfg"]}, ["C17"], strict=False)],
                 level="model_checking", assumptions=NC_ASSUME),
     "C18": Plan("nc", "TraceNetcodeMon", ["C18"], [("liveness", g_nc_live)],
-                mc=[mc_job("nc_live", "MC_Netcode", {"quick": ["MC_NC_live_q.cfg"], "thorough": ["MC_NC_live_q.cfg", "MC_NC_live.cfg"]}, ["C18"], strict=False,
+                mc=[mc_job("nc_live", "MC_Netcode", {"quick": ["MC_NC_live_q.cfg"], "thorough": ["MC_NC_live_q.cfg", "MC_NC_limit.cfg", "MC_NC_live.cfg"]}, ["C18"], strict=False,
                            timeout_t=3600)],
                 level="model_checking", assumptions=NC_ASSUME),
     "C19": Plan("nc", "TraceNetcodeMon", ["C19"], [("handshake_histories", g_nc_handshake), ("shapes", g_nc_shapes)],
-                mc=[mc_job("nc_cross", "MC_Netcode", {"quick": ["MC_NC_q1.cfg"], "thorough": ["MC_NC_q1.cfg", "MC_NC_q3.cfg"]}, ["C19"], strict=False)],
+                mc=[mc_job("nc_cross", "MC_Netcode", {"quick": ["MC_NC_q1.cfg"], "thorough": ["MC_NC_q1.cfg", "MC_NC_q3.cfg", "MC_NC_bad.cfg"]}, ["C19"], strict=False)],
                 level="model_checking", assumptions=NC_ASSUME),
     "C01": Plan("msg", "TraceRenetMon", ["C01"], [("random_ro", g_random_ro), ("random_mixed", g_random_mixed)],
                 mc=[mc_job("conn_ro", "MC_Conn", {"quick": ["MC_C01_q1.cfg"], "thorough": ["MC_C01_q1.cfg", "MC_C01_t1.cfg"]}, ["C01"])],
